@@ -65,10 +65,17 @@ fn gen_response() -> Response {
 fn parse_multipart(body: &[u8]) -> Result<(Vec<Vec<u8>>, bool), String> {
     let dash = b"--graphql";
     let delim = b"\r\n--graphql";
-    if !body.starts_with(dash) {
-        return Err(format!("body does not start with the boundary: {:?}", String::from_utf8_lossy(&body[..body.len().min(40)])));
-    }
-    let mut pos = dash.len();
+    // RFC 2046: an optional preamble may precede the first delimiter line
+    let mut pos = if body.starts_with(dash) {
+        dash.len()
+    } else if let Some(off) = body.windows(delim.len()).position(|w| w == delim) {
+        if body[..off].windows(dash.len()).any(|w| w == dash) {
+            return Err("the preamble contains the boundary".to_string());
+        }
+        off + delim.len()
+    } else {
+        return Err(format!("no boundary delimiter in the body: {:?}", String::from_utf8_lossy(&body[..body.len().min(40)])));
+    };
     let mut parts = vec![];
     loop {
         // after a boundary: "--" (close) or CRLF (part follows)
